@@ -12,33 +12,59 @@ ASSUMPTIONS = ['library writes are distinguished from application writes by the 
 def make(rng, lens):
     sc = Scenario([], prate=0, autopong=rng.random() < 0.8)
     frames = []
+    sent_pings = []        # payloads of the Pings the (valid) stream contains, in order
     n = rng.randint(1, 12)
     for _ in range(n):
         r = rng.random()
         if r < 0.5:
-            frames.append(server_frame(9, gen_core.rand_bytes(rng, rng.choice(lens))))
+            p = gen_core.rand_bytes(rng, rng.choice(lens))
+            frames.append(server_frame(9, p)); sent_pings.append(p)
         elif r < 0.7:
             it = gen_core.gen_item(rng)
             if it.frags and len(it.frags) > 1:
                 it.between = [[gen_core.Item('ping', gen_core.rand_bytes(rng, rng.choice(lens))) for _ in range(rng.choice([1, 2]))] for _ in it.frags[:-1]]
+                sent_pings += [x.payload for grp in it.between for x in grp]
+            else:
+                sent_pings += [x.payload for grp in (it.between or []) for x in grp if x.kind == 'ping']
             frames += gen_core.serialise_item(rng, it)
         elif r < 0.8:
             frames.append(server_frame(10, b'pong'))
         else:
-            frames += gen_core.serialise_item(rng, gen_core.gen_item(rng))
+            it = gen_core.gen_item(rng)
+            sent_pings += [x.payload for grp in (it.between or []) for x in grp if x.kind == 'ping']
+            frames += gen_core.serialise_item(rng, it)
     if rng.random() < 0.3:
         frames.append(server_frame(8, close_payload(1000, b'')))
         frames.append(server_frame(9, b'after-close'))
+        sent_pings.append(b'after-close')      # still handed to the application as an event (no Pong: the connection is closing)
     data = sc.good_reply() + b''.join(frames)
     sc.env = reads(limit_chunks(cut(data, random_cuts(rng, len(data), rng.choice([0, 0, 2, 6]))))) + [('wait', 1, ('eof',))]
     if rng.random() < 0.5:
-        sc.reactions = gen_core.gen_reactions(rng, 16, density=0.3, allow_bad=False)
+        sc.reactions = gen_core.gen_reactions(rng, 16, density=0.3, allow_bad=rng.random() < 0.5)
     if rng.random() < 0.2:
         sc.wfail = {rng.randint(1, 4)}
+    sc.sent_pings = pings_in_stream(b''.join(frames))
     return sc
 
 
-def judge(res, js, line, real, autopong):
+def pings_in_stream(data):
+    """payloads of the Ping frames of a (valid, unmasked) server frame stream, in order - an independent reading of the bytes"""
+    import struct
+    out, pos = [], 0
+    while pos + 2 <= len(data):
+        b0, b1 = data[pos], data[pos + 1]
+        n, pos = b1 & 0x7f, pos + 2
+        if n == 126:
+            n, pos = struct.unpack('!H', data[pos:pos + 2])[0], pos + 2
+        elif n == 127:
+            n, pos = struct.unpack('!Q', data[pos:pos + 8])[0], pos + 8
+        if b0 & 0x0f == 9:
+            out.append(bytes(data[pos:pos + n]))
+        pos += n
+    return out
+
+
+def judge(res, js, line, real, autopong, sent_pings=None):
     tk = toks(real)
     def fail(msg):
         res.failures.append(dict(cls='pong', what=msg, input=line[-1500:], scenario=js, observed=[t[:60] for t in tk[-8:]]))
@@ -63,6 +89,14 @@ def judge(res, js, line, real, autopong):
             payload = bytes.fromhex(t.split(':')[2])
             if autopong and not client_closed:
                 expected.append((i, payload))
+    # the stream is valid: every Ping it contains must come out as a Ping event, in order (all of them unless the connection was cut
+    # short by a write fault or by the application's own close / session close)
+    if sent_pings is not None:
+        got = [p for _, p in all_pings(tk)]
+        app_closes = any(a and a[0] in ('close', 'session_close', 'abandon') for acts in js.get('reactions', {}).values() for a in acts)
+        cut_short = any(t.startswith('WF:') for t in tk) or client_closed or app_closes or not any(t.startswith('E:ready') for t in tk)
+        if got != sent_pings[:len(got)] or (len(got) < len(sent_pings) and not cut_short):
+            return fail('Ping events %s do not match the Pings the server sent %s' % ([p.hex()[:12] for p in got], [p.hex()[:12] for p in sent_pings]))
     if not autopong:
         if lib_pongs:
             fail('library wrote a Pong although automatic pongs are disabled')
@@ -77,6 +111,10 @@ def judge(res, js, line, real, autopong):
             return fail('application write between the Pong and its Ping event')
 
 
+def all_pings(tk):
+    return [(i, bytes.fromhex(t.split(':')[2])) for i, t in enumerate(tk) if t.startswith('E:ping:')]
+
+
 def client_closed_attempt(tk):
     return any(t.startswith('WF:88') for t in tk)
 
@@ -86,23 +124,23 @@ def explore(res, tier, seed, model_ok=True):
     n = 300 if tier == 'quick' else 5000
     res.rule = ('Ping payload lengths 0..125 exhaustively (one stream each), then %d random streams with 1-12 frames (Pings anywhere incl. between fragments and several per read, Pongs, data, server Close followed by a Ping), '
                 'auto_pong on/off, application writes at random events, write failures; non-trivial = stream with >= 1 Ping; distinct by operation line') % n
-    scs, aps = [], []
+    scs, aps, sps = [], [], []
     for ln in range(126):
         sc = Scenario([], prate=0)
         sc.env = reads([sc.good_reply() + server_frame(9, gen_core.rand_bytes(rng, ln)) + server_frame(9, b'2nd')]) + [('wait', 1, ('eof',))]
-        scs.append(sc); aps.append(True)
+        scs.append(sc); aps.append(True); sps.append(None)
     res.exhaustive['ping_lengths_0_125'] = 126
     for _ in range(n):
         sc = make(rng, [0, 0, 1, 2, 7, 125, rng.randint(0, 125)])
-        scs.append(sc); aps.append(sc.autopong)
+        scs.append(sc); aps.append(sc.autopong); sps.append(sc.sent_pings)
     pairs = coreutil.run_pairs(scs, model_ok)
-    for (js, line, real, model), ap in zip(pairs, aps):
+    for (js, line, real, model), ap, sp in zip(pairs, aps, sps):
         if isinstance(real, dict):
             res.crashes.append(real); continue
         res.case(line, nontrivial='E:ping' in real)
         res.count('autopong' if ap else 'no_autopong')
         res.count('pings', real.count('E:ping'))
-        judge(res, js, line, real, ap)
+        judge(res, js, line, real, ap, sp)
     coreutil.check_corr(res, pairs)
     res.samples += [pairs[3][1][-200:], pairs[-1][1][-300:]]
 
